@@ -7,23 +7,25 @@ ROOT = os.path.dirname(os.path.dirname(os.path.abspath(__file__)))
 
 CMD = "env PYTHONHASHSEED=0 /venv/bin/python -B pbt/run.py --property {pid} --tier {tier}"
 
-# pid -> (category, technique, level text, level note, design ref)
-CHECKS = {
-    "C01": ("exploration",
-            "Hypothesis expression-tree generation vs exact polynomial model + ring-law metamorphic relations",
-            "Generated-input search: every node of generated expression trees (depth <= 4, mixed operand kinds, "
-            "broadcast families, equal/overlapping/disjoint names) is compared with an independent exact model; "
-            "ring laws are checked as metamorphic relations. Shows absence of disagreement on the explored cases only.",
-            "Trusts pbt/model.py (cross-checked against sympy in setup), the prebuilt extension modules, and dyadic "
-            "coefficient generation making float arithmetic exact.", "4 C01"),
-    "C14": ("exploration",
-            "bounded-exhaustive enumeration of option-call histories + Hypothesis-generated action lists vs a stack model",
-            "All valid histories of 5 (quick) / 7 (thorough) actions over a 12-action alphabet (enter/exit normally/"
-            "exit by Exception/BaseException, set_options, invalid keys, dict mutation) are enumerated and compared "
-            "with a stack model after every step; longer histories with arbitrary option values are sampled.",
-            "Single-threaded; blocks are driven through __enter__/__exit__ in LIFO order. Depth beyond the "
-            "enumeration bound is only sampled.", "4 C14"),
-}
+import importlib
+import sys
+
+sys.path.insert(0, ROOT)
+
+
+def check_info(pid):
+    """(category, technique, level text, level note, design ref) from the property module."""
+    path = os.path.join(ROOT, "pbt", "props", pid.lower() + ".py")
+    if not os.path.exists(path):
+        return None
+    mod = importlib.import_module("pbt.props." + pid.lower())
+    if not hasattr(mod, "TECHNIQUE"):
+        return None
+    text = ("Generated-input search against an explicit oracle; shows absence of disagreement on the "
+            "explored cases only. " + mod.LEVEL_TEXT)
+    note = "Assumes: " + "; ".join(getattr(mod, "ASSUMPTIONS", []))
+    return (getattr(mod, "LEVEL", "exploration"), mod.TECHNIQUE, text, note, "4 " + pid)
+
 
 NOT_YET = "check not implemented yet in this revision of /verif (work in progress)"
 
@@ -34,11 +36,11 @@ def main():
     na = []
     for p in props:
         pid = p["id"]
-        if pid not in CHECKS or not os.path.exists(
-                os.path.join(ROOT, "pbt", "props", pid.lower() + ".py")):
+        info = check_info(pid)
+        if info is None:
             na.append({"property_id": pid, "reason": NOT_YET})
             continue
-        cat, tech, text, note, ref = CHECKS[pid]
+        cat, tech, text, note, ref = info
         checks.append({
             "property_id": pid,
             "quick_cmd": CMD.format(pid=pid, tier="quick"),
